@@ -29,15 +29,18 @@ Definition rp_f (n : Z) : rp_msg := Build_rp_msg n RpForged RpEchoNone RpRequest
 (* responses carrying a Partial IV (notifications): genuine / forged *)
 Definition rp_n (n : Z) : rp_msg := Build_rp_msg n RpGenuine RpEchoNone RpResponse.
 Definition rp_nf (n : Z) : rp_msg := Build_rp_msg n RpForged RpEchoNone RpResponse.
+(* a request whose processing stops between the replay check and decryption *)
+Definition rp_ab (n : Z) : rp_msg := Build_rp_msg n RpAbort RpEchoNone RpRequest.
 
 (* the variants with exactly one repair missing *)
-Definition rp_no_bitidx : rp_variant := Build_rp_variant false true true true true true true.
-Definition rp_no_shguard : rp_variant := Build_rp_variant true false true true true true true.
-Definition rp_no_nooverwrite : rp_variant := Build_rp_variant true true false true true true true.
-Definition rp_no_rbflag : rp_variant := Build_rp_variant true true true false true true true.
-Definition rp_no_arm : rp_variant := Build_rp_variant true true true true false true true.
-Definition rp_no_resp_rb : rp_variant := Build_rp_variant true true true true true false true.
-Definition rp_no_resp_nowrite : rp_variant := Build_rp_variant true true true true true true false.
+Definition rp_no_bitidx : rp_variant := Build_rp_variant false true true true true true true true.
+Definition rp_no_shguard : rp_variant := Build_rp_variant true false true true true true true true.
+Definition rp_no_nooverwrite : rp_variant := Build_rp_variant true true false true true true true true.
+Definition rp_no_rbflag : rp_variant := Build_rp_variant true true true false true true true true.
+Definition rp_no_arm : rp_variant := Build_rp_variant true true true true false true true true.
+Definition rp_no_resp_rb : rp_variant := Build_rp_variant true true true true true false true true.
+Definition rp_no_resp_nowrite : rp_variant := Build_rp_variant true true true true true true false true.
+Definition rp_no_abort_rb : rp_variant := Build_rp_variant true true true true true true true false.
 
 (* ---- the code as found ---- *)
 
@@ -125,6 +128,14 @@ Theorem rp_no_resp_nowrite_refuted :
     rp_genuine_verdicts h (fst (rp_run rp_no_resp_nowrite 32 true rp_init h)) <>
     fst (rp_run rp_no_resp_nowrite 32 true rp_init (filter rp_is_genuine h)).
 Proof. exists [rp_nf (2 ^ 40 - 1); rp_n 7]. vm_compute. intro H; discriminate H. Qed.
+
+(* an exit between the replay check and decryption (as found: only reachable when memory runs
+   out) keeps the claimed number in the window: the genuine request 50 is rejected afterwards *)
+Theorem rp_no_abort_rb_refuted :
+  exists h,
+    rp_genuine_verdicts h (fst (rp_run rp_no_abort_rb 32 false rp_init h)) <>
+    fst (rp_run rp_no_abort_rb 32 false rp_init (filter rp_is_genuine h)).
+Proof. exists [rp_g 5; rp_ab 50; rp_g 50]. vm_compute. intro H; discriminate H. Qed.
 
 (* the same two for the code as found *)
 Theorem rp_orig_forged_response_refuted :
